@@ -26,7 +26,7 @@ def crowd(kw, **extra):
     """several sub-array observations falling due together on a cluster with a generous ingest limit:
     simultaneous ingests, same-step starts, machines contended between ingest and workflows"""
     a = dict(min_obs=2, start_gaps=(0, 0, 0, 1, 2, 3), overlap=True, modes=('roomy',), max_duration=8, unsorted='maybe',
-             long_durations=True)
+             long_durations=True, twins=True)
     a.update(kw)
     a.update(extra)
     return scenarios(**a)
@@ -39,7 +39,7 @@ def swarm(kw, **extra):
 
     def build(t):
         ov, lb, un, ld, bb, fm, pp, gi, md, mo = t
-        a = dict(overlap=ov, limit_binds=lb and not ov, unsorted=un, long_durations=ld, b2b=bb, few_machines=fm,
+        a = dict(overlap=ov, limit_binds=lb and not ov, unsorted=un, long_durations=ld, b2b=bb, twins=not bb, few_machines=fm,
                  piled_plans=pp, start_gaps=gapsets[gi], max_duration=md, min_obs=mo,
                  modes=('roomy',) if (ov or lb) else ('roomy', 'band'))
         a.update(kw)
@@ -158,7 +158,7 @@ class SimSpec:
 
 class C05(SimSpec):
     prop = 'C05'
-    cases = {'quick': 400, 'thorough': 6400}
+    cases = {'quick': 640, 'thorough': 6400}
     rule = ("scenario strategy, feasible by construction: buffer modes roomy / serialising band / band-overlap, families crowd "
             "(observations due together), limited (ingest limit binds), tight (begin and finish in one telescope pass), plans not in "
             "start order, injected delays; ~10% in-region tiering probe (known findings); non-trivial = at least one observation "
@@ -228,7 +228,7 @@ register(C05)
 
 class C01(SimSpec):
     prop = 'C01'
-    cases = {'quick': 400, 'thorough': 6400}
+    cases = {'quick': 640, 'thorough': 6400}
     rule = ("scenarios x {4 shipped pairings with injected delays, Adversary decision programs}; few machines relative to "
             "ready tasks; non-trivial = at least one scheduling round with more ready tasks than free machines, or at "
             "least one illegal proposal (busy-task / busy-ingest / duplicate / foreign-reserved / resubmission) made by the algorithm; "
@@ -274,7 +274,7 @@ class C01(SimSpec):
 
 class C03(SimSpec):
     prop = 'C03'
-    cases = {'quick': 400, 'thorough': 6400}
+    cases = {'quick': 640, 'thorough': 6400}
     rule = ("scenarios (all shipped pairings, heterogeneous bandwidths, zero and non-divisible edge volumes, static plans that "
             "pile successors on the predecessor's machine, injected delays); non-trivial = the executed run has at least one "
             "cross-machine edge with volume > 0 AND at least one same-machine edge; distinct = distinct canonical scenario JSON")
@@ -315,7 +315,7 @@ def concurrent_workflows(tr):
 
 class C04(SimSpec):
     prop = 'C04'
-    cases = {'quick': 400, 'thorough': 6400}
+    cases = {'quick': 640, 'thorough': 6400}
     rule = ("scenarios x {shipped pairings, Adversary programs} with injected delays; judged on runs that return from start(); "
             "non-trivial = completed run in which >= 2 workflows were in progress simultaneously, or a completed Adversary run "
             "with >= 1 illegal proposal; distinct = distinct canonical scenario JSON")
@@ -370,7 +370,7 @@ def with_rejection(sc_strategy):
 
 class C07(SimSpec):
     prop = 'C07'
-    cases = {'quick': 400, 'thorough': 6400}
+    cases = {'quick': 640, 'thorough': 6400}
     rule = ("scenarios in roomy and serialising-band buffer modes (overlapping observations, different rates/durations, "
             "timestep units, long and short workflows) + ~10% rejection class (an observation whose rate exceeds the hot "
             "buffer's max ingest rate) + ~10% in-region tiering probe; non-trivial = >= 2 observations resident in the hot "
@@ -385,8 +385,9 @@ class C07(SimSpec):
         main = scenarios(units=True, delays=True, min_obs=2, **kw)
         rej = with_rejection(scenarios(units=True, **kw))
         probe = scenarios(modes=('tiering',), min_obs=2, **kw)
+        rej2 = with_rejection(crowd(kw))        # the over-rate observation starts while / right after another one ingests
         return mix((4, main), (2, crowd(kw, delays=True)), (2, swarm(kw, delays=True, units=True)),
-                   (1, scenarios(modes=('bandov',), **kw)), (1, rej), (1, probe))
+                   (1, scenarios(modes=('bandov',), **kw)), (1, rej), (1, rej2), (1, probe))
 
     def violations(self, tr):
         out = O.C07(tr)
@@ -456,7 +457,7 @@ def max_resident(tr):
 
 class C08(SimSpec):
     prop = 'C08'
-    cases = {'quick': 400, 'thorough': 6400}
+    cases = {'quick': 640, 'thorough': 6400}
     rule = ("scenarios with >= 2 observations (simultaneous / overlapping / back-to-back / gapped starts, plans not in start order, "
             "array demands above and below the total, ingest demands against a binding limit, roomy / serialising-band / band-overlap "
             "buffers, all shipped pairings); about 70% of the cases get an adaptive second run with one more small observation planned "
@@ -548,7 +549,7 @@ class C08(SimSpec):
 
 class C09(SimSpec):
     prop = 'C09'
-    cases = {'quick': 400, 'thorough': 6400}
+    cases = {'quick': 640, 'thorough': 6400}
     rule = ("BatchPlanning+BatchProcessing scenarios (partitions 1-3, minimum, optional per-observation split, >= 2 observations "
             "so that workflows and ingests compete); non-trivial = >= 2 reservations live at once, or >= 1 refused provisioning "
             "round; distinct = distinct canonical scenario JSON")
@@ -602,7 +603,7 @@ def ingest_end_orders(tr):
 
 class C12(SimSpec):
     prop = 'C12'
-    cases = {'quick': 400, 'thorough': 6400}
+    cases = {'quick': 640, 'thorough': 6400}
     rule = ("scenarios with >= 2 observations (mostly the overlap-friendly crowd family), all shipped pairings; every third case is also "
             "run as start(k)+resume(T) and its table judged the same way; non-trivial = at least two ingests overlapped in time "
             "(classes report whether they ended in start order or reversed); every row of the per-timestep table is compared; "
@@ -666,7 +667,7 @@ class C12(SimSpec):
 
 class C13(SimSpec):
     prop = 'C13'
-    cases = {'quick': 360, 'thorough': 6400}
+    cases = {'quick': 560, 'thorough': 6400}
     rule = ("scenarios with observations starting at t=0 and at t>0 (the two process orders), all shipped pairings; half of the "
             "cases are additionally re-run paused at generated points and resumed to the same end; non-trivial = >= 2 "
             "observations with life-cycle transitions in the same timestep, or an observation starting at t>0 in a multi-"
@@ -740,7 +741,7 @@ class C13(SimSpec):
 
 class C17(SimSpec):
     prop = 'C17'
-    cases = {'quick': 400, 'thorough': 6400}
+    cases = {'quick': 640, 'thorough': 6400}
     rule = ("ListPlanning + DynamicSchedulingFromPlan scenarios with generated task->machine maps on heterogeneous clusters "
             "(many tasks piled on one machine), ingest and concurrent workflows contending; non-trivial = at least one scheduling "
             "round in which a ready task's planned machine was held while another machine was free (a forced wait); "
@@ -774,7 +775,7 @@ class C17(SimSpec):
 
 class C19(SimSpec):
     prop = 'C19'
-    cases = {'quick': 400, 'thorough': 6400}
+    cases = {'quick': 640, 'thorough': 6400}
     rule = ("simulation trajectories of all shipped pairings (queries evaluated at every end of step) plus cluster operation "
             "histories (ClusterOps state machine, query evaluated after every rule); non-trivial = trajectory in which the "
             "cluster query's truth and the buffer query's truth each took both values; distinct = distinct canonical scenario JSON")
